@@ -3,8 +3,9 @@ Driver for C15.  One case = one PALS workload
   `pw <self> <minLen> <minIdMilli> <maxMemMB> <plants> <target> <query|->\t<observation>`
 (or `pt <minLen> <minIdMilli> <plants> <traps> <target> <query>`: the aligner run on a given
 trapezoid list through `AlignFrom`, same statement).
-The kernel is modelled by its contract only, so there is no model output to compare hit by hit;
-what runs here is the executable statement of the property on the implementation's hits:
+What runs here is the executable statement of the property on the implementation's hits, and the
+model of `AlignTraps` (`Biogo.PalsKernel.alignTraps`: kernel, acceptance test, suppression) on the
+trapezoids the implementation's aligner was given, compared hit by hit:
 
  per hit   inside both sequences; both lengths ≥ minLen; reported Error ≤ 1 − minId;
            Score ≤ `globalScore (palsS SameCost DiffCost)` of the two hit regions (the proved
@@ -16,6 +17,7 @@ what runs here is the executable statement of the property on the implementation
            on diagonals within [LowDiagonal, HighDiagonal]);
  model     the acceptance function `accept` of the model holds for the hit and the reported
            Error is `errNum/(RMatchCost·blen)` (disagreement → `diff`);
+ strand    no two hits share a start point, no two an end point (`alignTraps_sound`);
  workload  every planted pair is recovered by one hit on the right strand that overlaps more
            than half of each copy; no trivial self match in self comparison; the filter
            parameters chosen by Optimise have a positive q-gram threshold and TubeOffset ≥ MaxError.
@@ -196,6 +198,14 @@ def parseTraps (s : String) : Option (List Trap) :=
 
 def kernelCosts : Biogo.PalsKernel.Costs := Biogo.Spec.PalsKernel.palsCosts
 
+/-- strict lexicographic order on the coordinates and the score (`hitLe` without equality) -/
+def hitLt (a b : Hit) : Bool :=
+  if a.abpos ≠ b.abpos then a.abpos < b.abpos
+  else if a.bbpos ≠ b.bbpos then a.bbpos < b.bbpos
+  else if a.aepos ≠ b.aepos then a.aepos < b.aepos
+  else if a.bepos ≠ b.bepos then a.bepos < b.bepos
+  else a.score < b.score
+
 def hitLe (a b : Hit) : Bool :=
   if a.abpos ≠ b.abpos then a.abpos < b.abpos
   else if a.bbpos ≠ b.bbpos then a.bbpos < b.bbpos
@@ -203,13 +213,13 @@ def hitLe (a b : Hit) : Bool :=
   else if a.bepos ≠ b.bepos then a.bepos < b.bepos
   else a.score ≤ b.score
 
-/-- `AlignTraps` of the model (kernel, suppression with stable sorts) and `dropSelfMatches`:
+/-- `AlignTraps` of the model (kernel, then suppression with merge sorts on both coordinates) and `dropSelfMatches`:
     the emitted hits and the returned ones -/
-def modelAlign (target working : Array Nat) (traps : List Trap) (k minLen minIdMilli : Int) (dropSelf : Bool) :
-    List Biogo.PalsKernel.KHit × List Hit :=
-  let em := Biogo.PalsKernel.emitted kernelCosts ⟨target, working⟩ traps k minLen (1000 - minIdMilli) 1000
-  let kept := suppress (fun l => l.mergeSort fun a b => a.abpos ≤ b.abpos) (fun l => l.mergeSort fun a b => a.aepos ≤ b.aepos)
-    (em.map (·.h))
+def modelAlign (target working : Array Nat) (traps : List Trap) (k minLen minIdMilli : Int) (dropSelf : Bool)
+    (split : Bool := false) : List Biogo.PalsKernel.KHit × List Hit :=
+  let em := Biogo.PalsKernel.emittedWith split kernelCosts ⟨target, working⟩ traps k minLen (1000 - minIdMilli) 1000
+  -- for `split = false` this is `Biogo.PalsKernel.alignTraps` (`alignTraps_sound`)
+  let kept := Biogo.PalsKernel.suppressed em
   let kept := if dropSelf then kept.filter (fun h => !(h.abpos == h.bbpos && h.aepos == h.bepos)) else kept
   (em, kept)
 
@@ -227,19 +237,22 @@ def kernelWhy (strand : Nat) (target working : Array Nat) (traps : List Trap) (k
     | some o => some s!"kernel-model-diagonals {showHit o} {o.lowDiag}..{o.highDiag}"
     | none => none
 
-/-- rows × columns the kernel has to fill at most once per trapezoid, a bound on the model's work -/
+/-- rows × columns the kernel has to fill at most once per trapezoid, a bound on the model's work.
+    The comparison is skipped above 2·10⁹ (two 20 kb sequences merged into one trapezoid per strand are
+    8·10⁸: every workload of the generator is compared; the model needs about 0.6 s for 10⁸). -/
 def trapWork (traps : List Trap) : Int :=
   traps.foldl (fun acc t => acc + (t.top - t.bottom + 1) * (t.right - t.left + 1 + 40)) 0
 
-/-- Recogniser of known finding **K6** (one alignment per row range inside a trapezoid).
-    `alignRecursion` splits a trapezoid only by rows: after the alignment through its middle row
-    it recurses into the rows above and below, so a second repeat whose query rows overlap those
-    of a reported alignment *in the same trapezoid* (another diagonal of a very wide trapezoid —
-    the short-seed regime, where the filter threshold is 1 and everything merges) is never
-    aligned.  A missed planted pair is K6 when, in one of its orientations, an implementation
-    trapezoid of that strand contains its diagonal and overlaps its query rows, and a reported hit
-    of that strand that does not recover it lies in the same trapezoid on overlapping query rows. -/
-def isK6 (self : Bool) (qLen : Nat) (traps : List Trap) (hits : List HitObs) (p : Plant) : Bool :=
+/-- Structural part of the recogniser of known finding **K6** (one alignment per row range inside a
+    trapezoid).  `alignRecursion` splits a trapezoid only by rows: after the alignment through its
+    middle row it recurses into the rows above and below, so a second repeat whose query rows
+    overlap those of a reported alignment *in the same trapezoid* (another diagonal of a very wide
+    trapezoid — the short-seed regime, where the filter threshold is 1 and everything merges) is
+    never aligned.  A missed planted pair has the shape of K6 when, in one of its orientations, an
+    implementation trapezoid of that strand contains its diagonal and overlaps its query rows, and
+    a reported hit of that strand that does not recover it lies in the same trapezoid on
+    overlapping query rows. -/
+def k6Shape (self : Bool) (qLen : Nat) (traps : List Trap) (hits : List HitObs) (p : Plant) : Bool :=
   let strand : Nat := if p.comp then 1 else 0
   let hs := hits.filter fun o => o.strand == strand && !recovers self qLen p o
   let bsD : Int := if p.comp then (qLen : Int) - (p.bPos + p.bLen : Nat) else p.bPos
@@ -255,6 +268,28 @@ def isK6 (self : Bool) (qLen : Nat) (traps : List Trap) (hits : List HitObs) (p 
         decide (t.left - 12 ≤ hd) && decide (hd ≤ t.right + 12) &&
         decide (t.bottom ≤ o.h.bepos) && decide (o.h.bbpos ≤ t.top) &&
         decide (o.h.bbpos < be) && decide (bs < o.h.bepos)
+
+/-- **Recogniser of K6**, specific to the root cause.  A missed planted pair is K6 when
+    (1) it has the shape above (`k6Shape`);
+    (2) the kernel model with the recursion of the source (`emittedWith false`, the model the
+        correspondence compares hit by hit with the implementation), run on the trapezoids the
+        implementation's aligner was given, misses the pair as well — so the miss is what the
+        row-wise recursion does on these trapezoids, not a departure of the implementation from it;
+    (3) the same model with the one change "also recurse into the diagonals left and right of the
+        band of a found alignment" (`emittedWith true`), everything else equal — same trapezoids,
+        same traces, same acceptance test, same suppression — recovers it.
+    Any other recall failure (pair not in a trapezoid, kernel losing an alignment the model finds,
+    a pair the diagonal split does not bring back) stays `fail`.  The model is run here whatever the
+    work bound of the correspondence (only on workloads with a missed demanded pair). -/
+def isK6 (self : Bool) (qLen : Nat) (target working : Array Nat) (traps : List Trap) (k minLen minIdMilli : Int)
+    (hits : List HitObs) (p : Plant) : Bool :=
+  let strand : Nat := if p.comp then 1 else 0
+  k6Shape self qLen traps hits p &&
+    let dropSelf := self && !p.comp
+    let asObs := fun (h : Hit) => ({ strand := strand, h := h, e12 := none, lowDiag := 0, highDiag := 0 } : HitObs)
+    let rowWise := (modelAlign target working traps k minLen minIdMilli dropSelf false).2
+    !rowWise.any (fun h => recovers self qLen p (asObs h)) &&
+      (modelAlign target working traps k minLen minIdMilli dropSelf true).2.any (fun h => recovers self qLen p (asObs h))
 
 def handleCase (self : Bool) (minLen minIdMilli maxMemMB : Int) (plants : List Plant) (target query : Array Nat)
     (obs : String) (givenTraps : Option (List Trap) := none) : Verdict :=
@@ -312,6 +347,16 @@ def handleCase (self : Bool) (minLen minIdMilli maxMemMB : Int) (plants : List P
         -- trivial self match
         let trivial := self && hits.any fun o => o.strand == 0 && o.h.abpos == o.h.bbpos && o.h.aepos == o.h.bepos
         if trivial then fail "trivial-self-match-reported" tags else
+        -- the suppression of `AlignTraps` ("remove lower scoring segments that begin or end at the same point as a
+        -- higher scoring segment"; `alignTraps_sound`): no two hits of a strand share a start point, no two an end point
+        let sharing := hits.find? fun o => hits.any fun p =>
+          p.strand == o.strand && hitLt o.h p.h &&
+          ((p.h.abpos == o.h.abpos && p.h.bbpos == o.h.bbpos) || (p.h.aepos == o.h.aepos && p.h.bepos == o.h.bepos))
+        let twice := hits.find? fun o => (hits.filter fun p => p.strand == o.strand && p.h == o.h).length > 1
+        match twice, sharing with
+        | some o, _ => fail s!"hit-reported-twice {showHit o}" tags
+        | none, some o => fail s!"two-hits-share-a-start-or-an-end-point {showHit o}" tags
+        | none, none =>
         let boundary := plants.filter (·.cls == 1)
         let tags := tags ++
           (if boundary.any (fun p => demanded self target query working1 n e p) then ["boundary-guaranteed"] else []) ++
@@ -324,11 +369,12 @@ def handleCase (self : Bool) (minLen minIdMilli maxMemMB : Int) (plants : List P
         let missed := plants.filter fun p => demanded self target query working1 n e p && !hits.any (recovers self query.size p)
         let showPlant := fun (p : Plant) => s!"{p.aPos}:{p.aLen}:{p.bPos}:{p.bLen}:{if p.comp then 1 else 0}:{p.cls}"
         let k6 := fun (p : Plant) => match trapsObs with
-          | some (t0, t1) => isK6 self query.size (if p.comp then t1 else t0) hits p
+          | some (t0, t1) =>
+            isK6 self query.size target (if p.comp then working1 else query) (if p.comp then t1 else t0) k minLen minIdMilli hits p
           | none => false
         match missed.find? (fun p => !k6 p), missed with
         | some p, _ => fail s!"planted-repeat-not-recovered {showPlant p}" tags
-        | none, p :: _ => known "K6" s!"planted-repeat-shares-query-rows-with-a-reported-hit-in-one-trapezoid {showPlant p}" tags
+        | none, p :: _ => known "K6" s!"planted-repeat-shares-query-rows-with-a-reported-hit-in-one-trapezoid;row-wise-model-misses-it;diagonal-split-recovers-it {showPlant p}" tags
         | none, [] =>
           match hits.findSome? (modelWhy minLen minIdMilli) with
           | some w => diff w tags
@@ -346,7 +392,7 @@ def handleCase (self : Bool) (minLen minIdMilli maxMemMB : Int) (plants : List P
               match trapsObs with
               | none => (none, tags)
               | some (t0, t1) =>
-                if trapWork t0 + trapWork t1 > 60000000 then (none, tags ++ ["kernel-model-skipped"])
+                if trapWork t0 + trapWork t1 > 2000000000 then (none, tags ++ ["kernel-model-skipped"])
                 else
                   let w0 := kernelWhy 0 target query t0 k minLen minIdMilli self (hits.filter (·.strand == 0))
                   let w1 := if givenTraps.isSome then none
